@@ -13,6 +13,7 @@ CONSTANTS MaxSegs,             \* request paths have at most this many segments
           SegAlphabet,         \* tokens a request segment is drawn from
           DevIndexNotRechecked,\* deviation: index file found inside a safe directory is served without re-check
           DevNoPctDecode,      \* deviation: the request path is not percent-decoded
+          DevClimbAndReturn,   \* deviation (the tree before its fix): a path above the root that comes back in is served
           DevLoopLexical       \* deviation (the tree before the fix, section 15): what Path.resolve() returns after giving
                                \* up at a symbolic-link loop is trusted as if it were fully resolved
 Dirs  == {"TOP", "root", "a", "root2", "out"}
@@ -122,9 +123,19 @@ ServeAt(loc, contained) ==
        ELSE IF listing THEN [Resp(20, loc.at, "listing") EXCEPT !.mayfail = BadEntry(loc.at)] ELSE Resp(51, "none", "none")
   ELSE IF IsFileN(loc.at) THEN Resp(20, loc.at, "file")
   ELSE Resp(51, "none", "none")
+\* the decoded path climbs above the document root at some point, lexically ("/../root/g" comes back in; certificate rules
+\* judge the canonical path, where ".." at the root is ignored - the handler refuses what they cannot judge)
+RECURSIVE Climbs(_, _)
+Climbs(segs, depth) ==
+  IF segs = <<>> THEN FALSE
+  ELSE LET h == Head(segs) IN
+       IF h = "" \/ h = "." THEN Climbs(Tail(segs), depth)
+       ELSE IF h = ".." THEN (depth = 0 \/ Climbs(Tail(segs), depth - 1))
+       ELSE Climbs(Tail(segs), depth + 1)
 Serve ==
   LET loc == Resolve([at |-> "root", ghost |-> 0], Flat(path)) IN
-  IF loc.at # "loop" THEN ServeAt(loc, TRUE)
+  IF ~DevClimbAndReturn /\ Climbs(Flat(path), 0) THEN Resp(51, "none", "none")
+  ELSE IF loc.at # "loop" THEN ServeAt(loc, TRUE)
   ELSE LET lw == LexWalk(loc.d, <<loc.c>>, loc.rest)
            r  == Resolve([at |-> lw.d, ghost |-> 0], lw.names) IN        \* where the operating system ends up from there
        IF r.at = "loop" THEN Resp(40, "none", "error")                    \* resolve()'s own stat() meets the loop: RuntimeError
